@@ -382,6 +382,31 @@ func H_ClosePositions_SamePositionTwice() {
 	s.check("close-positions(same position twice)", 1)
 }
 
+// governance's pool messages on a pool that has open positions: MsgAddPool for the pool that is already enabled (any
+// leverage cap) and MsgRemovePool - accepted or refused, the pool total still equals the sum over the open positions
+//
+//vrf:cover done
+//vrf:bound 1 existing position + symbolic remainder; MsgAddPool (symbolic leverage cap) or MsgRemovePool for its pool from the governance authority
+func H_Gov_PoolMessages_KeepTotals() {
+	s := setup(true)
+	env, ctx := s.env, s.env.Ctx
+	srv := levkeeper.NewMsgServerImpl(*env.Lev)
+	if vrf.Bool("removePool") {
+		_, err := srv.RemovePool(ctx, &levtypes.MsgRemovePool{Authority: wire.Gov, Id: 1})
+		if err == nil {
+			vrf.Assert(false, "C08: a pool with open positions cannot be removed")
+			return
+		}
+	} else {
+		lm := vrf.Dec("leverageMax")
+		vrf.Assume(lm.GTE(sdkmath.LegacyOneDec()))
+		vrf.Assume(lm.LTE(sdkmath.LegacyNewDec(100)))
+		srv.AddPool(ctx, &levtypes.MsgAddPool{Authority: wire.Gov, Pool: levtypes.AddPool{AmmPoolId: 1, LeverageMax: lm}})
+	}
+	vrf.Cover("done")
+	s.check("governance pool message", 1)
+}
+
 // owner-only close sent by someone else
 //
 //vrf:cover refused
